@@ -164,6 +164,9 @@ CallLabels(tag, DD, n, res, pre, dl, fx, maxdepth, taint) ==
                   LET m == fx[j][2] IN
                   (m \notin ghosts /\ IsCachedNode(DD, m) /\ m \notin Unwound(fx) /\ fx[j][3] # NoneV)
                       => (m \in DOMAIN dl /\ dl[m] = fx[j][3]), "C05.CompletedKept")
+      \* the configured recursion limit is enforced: no chain of executing formulas is
+      \* longer than the one at which DeepReferenceError is raised
+      \cup Lbl(maxdepth = 0 \/ MaxDepth(fx) <= maxdepth + 1, "C05.DepthLimitEnforced")
       \cup Lbl(DOMAIN pre \subseteq DOMAIN dl, "C06.CallDiscardsNothing")
       \cup Lbl(\A m \in DOMAIN pre \cap DOMAIN dl : dl[m] = pre[m], "C06.CallChangesNothing")
 
